@@ -802,11 +802,11 @@ def judgeLine2 (j : JSt) (lineNo : Nat) (opLine obsLine : String) : JSt :=
   | ["loadcuts", a, _] =>
     match (parseHandle a).bind j.getMon with
     | some m =>
-      if m.judged then
-        match words obsLine with
-        | ["ok", _, _, bad] => if bad = "bad=[]" then j else j.reject "C09" lineNo s!"prefixes not rejected: {bad}"
-        | _ => j.reject "C09" lineNo s!"loadcuts answered '{obsLine}'"
-      else j
+      -- C09 speaks about the file written by save() for *every* reachable graph: a cut image that loads is a violation
+      -- also on a handle the history monitors no longer judge (beyond the group limit, after a non-tree merge)
+      match words obsLine with
+      | ["ok", _, _, bad] => if bad = "bad=[]" then j else j.reject "C09" lineNo s!"prefixes not rejected: {bad}"
+      | _ => if m.judged then j.reject "C09" lineNo s!"loadcuts answered '{obsLine}'" else j
     | none => j
   | ["observe", a] =>
     let j := match parseHandle a, parseObserve obsLine with
